@@ -44,6 +44,9 @@ type nestStruct struct {
 	P *int
 }
 
+// SelfPtr is a pointer type defined in terms of itself: it has no bottom to dereference to.
+type SelfPtr *SelfPtr
+
 // EmbStack / EmbCond embed the library types: they inherit every method (and satisfy the library's interfaces) without
 // being convertible aliases.
 type EmbStack struct{ stackage.Stack }
@@ -113,6 +116,13 @@ var AwkwardValues = []Awkward{
 	{"70000", func() any { return 70000 }},
 	{"[]any label", func() any { return []any{"AND", []any{}} }},
 	{"Stack holding Stack{}", func() any { return stackage.And().Push(stackage.Stack{}) }},
+	{"reflect.Value{}", func() any { return reflect.Value{} }},
+	{"reflect.ValueOf(5)", func() any { return reflect.ValueOf(5) }},
+	{"SelfPtr(nil)", func() any { var p SelfPtr; return p }},
+	{"SelfPtr->itself", func() any { var p SelfPtr; p = &p; return p }},
+	{"[]any{&int, &&int}", func() any { i := 5; q := &i; return []any{&i, &q} }},
+	{"struct{P *int}{nil}", func() any { return struct{ P *int }{nil} }},
+	{"map[string]*int{nil}", func() any { return map[string]*int{"k": nil} }},
 	{"(*EmbStack)(nil)", func() any { return (*EmbStack)(nil) }},
 	{"(*EmbCond)(nil)", func() any { return (*EmbCond)(nil) }},
 	{"EmbStack{}", func() any { return EmbStack{} }},
